@@ -115,6 +115,47 @@ def r3_backend(run, F):
     for c in hirq.calls(tf[0]["hir"]):
         if hirq.callee(c) == "get_backend":
             calls.append([hirq.unwrap_trivial(a).get("v") for a in c["a"] if hirq.unwrap_trivial(a).get("k") == "Lit"])
+    # the slots of get_backend are fed from the right sources at each call site: slot 0 = the command line, slot 2 = the config file
+    t0 = tf[0]
+    arm_binds = set()
+    for m in hirq.matches(t0["hir"]):
+        for a in m["arms"]:
+            for _, lid, _ in hirq.pat_bindings(a["pat"]):
+                arm_binds.add(lid)
+    lets = {}
+    for n in walk(t0["hir"]):
+        if n.get("k") == "Let" and "init" in n:
+            for _, lid, _ in hirq.pat_bindings(n["pat"]):
+                lets[lid] = n["init"]
+    nsites = 0
+    for c in hirq.calls(t0["hir"]):
+        if hirq.callee(c) != "get_backend" or len(c.get("a", [])) != 4:
+            continue
+        nsites += 1
+        a0, a2 = hirq.unwrap_trivial(c["a"][0]), hirq.unwrap_trivial(c["a"][2])
+        envname = hirq.unwrap_trivial(c["a"][1]).get("v")
+
+        def field_of(n, depth=0):
+            if n.get("k") == "Path" and n.get("rk") == "Local" and n.get("lid") in lets and depth < 4:
+                return field_of(hirq.unwrap_trivial(lets[n["lid"]]), depth + 1)  # `let flag = args.backend;`
+            if n.get("k") == "Field" and n.get("name") == "backend":
+                b = hirq.unwrap_trivial(n["e"])
+                if b.get("k") == "Path" and b.get("rk") == "Local":
+                    return b.get("lid")
+            return None
+        l0 = field_of(a0)
+        run.ob("R3-BACKEND-SOURCES", "%s|flag slot" % envname, l0 is not None and l0 in arm_binds, F.where(t0, c),
+               "the first argument of get_backend must be exactly the --backend option of the parsed command line "
+               "(anything merged into it would outrank the environment variable)")
+        l2 = field_of(a2)
+        is_none = a2.get("k") == "Path" and str(a2.get("res", "")).endswith("::None")
+        from_cfg = l2 is not None and l2 in lets and any("toml::" in (hirq.callee(x) or "") for x in hirq.calls(lets[l2]))
+        run.ob("R3-BACKEND-SOURCES", "%s|config slot" % envname, is_none or from_cfg, F.where(t0, c),
+               "the third argument of get_backend must be the backend key of the parsed config file (or None where the subcommand has no config file)")
+        if envname == "PENNE_BACKEND":
+            run.ob("R3-BACKEND-SOURCES", "%s|config consulted" % envname, from_cfg, F.where(t0, c),
+                   "`penne build --config FILE` must pass the config file's backend in the config slot, below the environment variable")
+    run.require(nsites == 2, "expected two get_backend call sites in MainArgs::try_from (found %d)" % nsites)
     run.ob("R3-BACKEND-ORDER", "names and defaults", sorted(calls) == sorted([["PENNE_BACKEND", "clang"], ["PENNE_LLI", "lli"]]), F.where(tf[0]),
            "build: PENNE_BACKEND / clang; run: PENNE_LLI / lli: %s" % calls)
 
